@@ -10,6 +10,9 @@ def handle (k : String) (inp : Json) : Option (R Res) :=
   match k with
   | "c05.conc" => some (conc inp)
   | "c05.stale" => some (conc inp)
+  | "c05.coretxn" => some (do
+      let n ← getNat inp "new"
+      return { m := Json.mkObj [("completed", Json.bool true), ("accepted", Json.bool true), ("listed", jNat n)], nt := decide (n ≥ 1) })
   | "c19.renamerace" => some (conc inp)
   | _ => none
 
